@@ -6,7 +6,7 @@ from fractions import Fraction
 import numpy as np
 from hypothesis import strategies as st
 
-from harness.common import Ctx, drive, guard
+from harness.common import Ctx, Inconclusive, drive, guard
 
 RULE = ("(0) halton() at EVERY index 1..2^16+2^13 for each of the first 40 primes (complete enumeration, integer reference); "
         "(i) halton(size 1-40, first d primes d 1-40, n_start in [0, 2^16+2^12)) against an exact-rational radical inverse; "
@@ -155,7 +155,9 @@ def sampler_cases(draw, kind):
     return {"kind": kind, "d": d, "seed": draw(st.integers(0, 2**32 - 2)),
             "batches": draw(st.lists(st.integers(1, 12), min_size=draw(st.sampled_from([1, 2, 2, 2, 3])), max_size=5)),
             "via": draw(st.sampled_from(["sample", "sample_batch"])),
-            "reseed_from": draw(st.one_of(st.none(), st.integers(0, 1000)))}
+            "reseed_from": draw(st.one_of(st.none(), st.integers(0, 1000))),
+            # before some batches, a call that the sampler rejects (zero-parameter space)
+            "bad_call_before": draw(st.one_of(st.just([]), st.just([]), st.lists(st.integers(0, 4), max_size=2, unique=True)))}
 
 
 def bitrev(k):
@@ -180,7 +182,18 @@ def draw_points(kind, case, sizes, reseed=False):
         s = cls(batch_size=sizes[0], random_state=case["seed"])
     hist = np.zeros((0, case["d"]))
     outs = []
-    for b in sizes:
+    for bi, b in enumerate(sizes):
+        if bi in case.get("bad_call_before", []):
+            # a call the sampler rejects (a space without parameters) is not a batch: the sequence must go on as if it had
+            # never been made. (If the sampler accepts it, it is a batch like any other and consumes its indices.)
+            from black_it.search_space import SearchSpace
+            try:
+                got = s.sample_batch(2, SearchSpace([[], []], [], verbose=False), np.zeros((0, 0)), np.zeros(0))
+                accepted = got is not None
+            except Exception:  # noqa: BLE001
+                accepted = False
+            if accepted:
+                raise Inconclusive("a space without parameters was accepted by the sampler (then it is a batch, not a failed call)")
         if case["via"] == "sample":
             s.batch_size = b
             pts = s.sample(sp, hist, np.zeros(len(hist)))
@@ -195,10 +208,11 @@ def check_sampler(ctx: Ctx, case):
     kind, d = case["kind"], case["d"]
     sub = f"{kind}_sampler"
     sizes = case["batches"]
-    ctx.count(sub, case, len(sizes) >= 2 and d >= 3, [f"batches={len(sizes)}", f"d>{(d - 1) // 10 * 10}", case["via"]])
+    ctx.count(sub, case, len(sizes) >= 2 and d >= 3, [f"batches={len(sizes)}", f"d>{(d - 1) // 10 * 10}", case["via"]] +
+              (["rejected-call-between-batches"] if case.get("bad_call_before") else []))
     with guard(ctx, "C13/exception", sub, case):
         pts, outs = draw_points(kind, case, sizes)
-        joint, _ = draw_points(kind, case, [sum(sizes)])
+        joint, _ = draw_points(kind, dict(case, bad_call_before=[]), [sum(sizes)])   # one batch, no rejected calls
         again, _ = draw_points(kind, case, sizes)
         re_used, _ = draw_points(kind, case, sizes, reseed="used")
         re_fresh, _ = draw_points(kind, case, sizes, reseed="fresh")
